@@ -66,6 +66,7 @@ def obsJson : Obs Nat → Json
   | .garbled => "garbled"
   | .raised => "raised"
   | .fault => "fault"
+  | .hang => "hang"
 
 def opLifecycle : Handler := fun j => do
   let scripts ← (← getArr (← field j "scripts")).mapM getSetup
